@@ -151,6 +151,26 @@ func orcTrigger(s *orcStep, prop string) string {
 			return "dst-inside-own-subtree"
 		}
 	}
+	if c.Kind == "move" && !nk.Edge && len(nk.Obj) > 0 {
+		norm := func(x string) string {
+			return strings.ToLower(strings.NewReplacer("\"", "", "'", "").Replace(strings.TrimSpace(x)))
+		}
+		for _, ln := range strings.Split(s.Pre.Text, "\n") {
+			tl := strings.TrimSpace(ln)
+			if strings.HasSuffix(tl, ": null") && norm(strings.TrimSuffix(tl, ": null")) == norm(c.NewKey) {
+				// the destination key is erased by a later `key: null` statement of the file
+				return "destination-key-is-nulled-in-source"
+			}
+		}
+		if len(nk.Obj) > 1 {
+			if p := pre.findObj(nk.Obj[:len(nk.Obj)-1]); p >= 0 {
+				if sh := strings.ToLower(pre.Objs[p].Shape); sh == "class" || sh == "sql_table" {
+					// children of a class / table are fields: the moved object stops being an object
+					return "destination-parent-is-class-or-sql-table"
+				}
+			}
+		}
+	}
 	// --- imported / inherited ---------------------------------------------------------
 	foreignUp := func(i int) bool { // the object or one of its containers is imported
 		for ; i >= 0; i = pre.Objs[i].Parent {
@@ -257,7 +277,7 @@ func orcTrigger(s *orcStep, prop string) string {
 		}
 	}
 	// --- a new connection parallel to an existing one ------------------------------------
-	if c.Kind == "create" && k.Edge {
+	if (c.Kind == "create" || (c.Kind == "set" && k.Index == nil)) && k.Edge {
 		si, di := pre.findObj(k.Src), pre.findObj(k.Dst)
 		for _, e := range pre.Edges {
 			if si >= 0 && e.Src == si && e.Dst == di && e.SrcArrow == k.SrcArrow && e.DstArrow == k.DstArrow {
@@ -422,6 +442,30 @@ func orcTrigger(s *orcStep, prop string) string {
 			}
 		}
 	}
+	// --- connections declared with `_`-relative endpoints ---------------------------------
+	if te >= 0 && pre.Edges[te].UnderscoreDecl && (c.Kind == "reconnect" || c.Kind == "rename" || c.Kind == "move") {
+		// new endpoints are re-expressed relative to the declaring scope (pathFromScopeObj)
+		return "connection-declared-with-underscore-endpoints"
+	}
+	if t >= 0 && (c.Kind == "move" || c.Kind == "rename" || c.Kind == "delete") && len(k.Attr) == 0 {
+		for _, e := range pre.Edges {
+			if e.UnderscoreDecl && e.Scope >= 0 && inSub(e.Scope) {
+				// move()/hoistRefChildren recompute the `_` prefixes of statements inside the
+				// relocated map (ResolveUnderscoreKey + pathFromScopeKey / bumpChildrenUnderscores)
+				return "subtree-declares-connection-with-underscore-endpoints"
+			}
+		}
+	}
+	// --- objects named like a keyword ------------------------------------------------------
+	if t >= 0 && (c.Kind == "move" || c.Kind == "rename" || c.Kind == "delete") && len(k.Attr) == 0 {
+		for i := range pre.Objs {
+			if strings.EqualFold(pre.Objs[i].IDVal, "near") {
+				// updateNear treats every key whose last segment is `near` as a near attribute,
+				// also the declaration of an object that is literally named "near"
+				return "board-has-object-named-near"
+			}
+		}
+	}
 	// --- a quoted "_" as a name ----------------------------------------------------------
 	if t >= 0 && (c.Kind == "delete" || c.Kind == "move" || c.Kind == "rename") {
 		for i := range pre.Objs {
@@ -439,6 +483,15 @@ func orcTrigger(s *orcStep, prop string) string {
 		for i := range pre.Objs {
 			if raw := pre.Objs[i].NearRaw; raw != "" {
 				if j, ok := pre.byPath[orcPathKey(strings.Split(raw, "\x1f"))]; ok && inSub(j) {
+					return "near-references-target"
+				}
+			}
+		}
+		// also a near statement that a later one overrides (updateNear walks the statements)
+		for _, ln := range strings.Split(s.Pre.Text, "\n") {
+			if i := strings.Index(ln, "near: "); i >= 0 {
+				v := strings.Trim(strings.TrimSpace(ln[i+6:]), "'\"")
+				if strings.EqualFold(v, pre.Objs[t].AbsID) || strings.EqualFold(v, pre.Objs[t].IDVal) {
 					return "near-references-target"
 				}
 			}
